@@ -214,6 +214,6 @@ class TwoCalls(Subsets):
 
 def layers(tier, seed):
     if tier == 'quick':
-        return [Subsets('k<=4', 1, 4, 3, 2), Subsets('k=5', 5, 5, 0, 0), TwoCalls('seq2:k<=3', 24, 3)]
+        return [Subsets('k<=4', 1, 4, 3, 2), Subsets('k=5', 5, 5, 0, 0), TwoCalls('seq2:k<=3', 24, 3), Subsets('k=6', 6, 6, 0, 0)]
     return [Subsets('k<=4', 1, 4, 4, 3), Subsets('k=5', 5, 5, 0, 0), TwoCalls('seq2:k<=3', 120, 3), Subsets('k=6', 6, 6, 0, 0), Subsets('k=7', 7, 7, 0, 0),
             Subsets('k=8', 8, 8, 0, 0, optional=True)]
